@@ -129,6 +129,11 @@ def main(tier, replay=None):
     if quick and len(fn_cases) > 9000:
         fn_cases = rng.sample(fn_cases, 9000)
     fn_cases += [rand_case(rng) for _ in range(4000 if quick else 100000)]
+    # letters that are already lower case but have a longer or different "case-folded" form: LOWER leaves them alone
+    for _ in range(60 if quick else 2000):
+        w = ''.join(rng.choice(['\u00df', '\u017f', '\u03c2', '\u0149', '\u01f0', '\u0390', '\ufb01', 'a', 'B', ' ', 'Z', '1']) for _ in range(rng.randint(1, 8)))
+        fn_cases.append({'f': 'LOWER', 'args': [enc(w)]})
+        fn_cases.append({'f': 'LEN', 'args': [enc(w)]})
     obs = fncases.observe(lib, fn_cases, twins=True)
     so = suite.observations({'LEFT','RIGHT','MID','LEN','UPPER','LOWER','PROPER','TRIM','CLEAN','SUBSTITUTE','CONCATENATE','CONCAT','TEXTJOIN','CHAR','CODE','LEFTB','RIGHTB','MIDB','LENB'}, len(obs) + 1)   # the same functions as the repository's own tests call them
     run.extra['calls_from_repository_tests'] = len(so)
